@@ -9,7 +9,8 @@ From Coq Require Import List ZArith NArith Bool.
 Import ListNotations.
 From Verif Require Import Common.Base Model.SampleBuilder Model.SampleBuilderSpec
   Proofs.SampleBuilderArith Proofs.SampleBuilderIter Proofs.SampleBuilder
-  Proofs.SampleBuilderScan Proofs.SampleBuilderBuild Proofs.SampleBuilderFuel Proofs.SampleBuilderTop.
+  Proofs.SampleBuilderScan Proofs.SampleBuilderBuild Proofs.SampleBuilderFuel Proofs.SampleBuilderFifo
+  Proofs.SampleBuilderTop.
 Open Scope N_scope.
 
 (* ---------- uint16 / uint32 arithmetic, all values ---------- *)
@@ -185,6 +186,19 @@ Theorem c31_each_packet_once_refuted : exists is_head is_tail unmarshal c ops,
   ~ each_packet_once (snd (run is_head is_tail unmarshal c ops)).
 Proof. exists fk_is_head, fk_is_tail, fk_unmarshal, (wcfg 50), w_once_ops. exact once_witness. Qed.
 Print Assumptions c31_each_packet_once_refuted.
+
+(* What does hold of the order, over every history: Pop is a faithful queue.
+   The samples returned by the Pops are exactly the first samples buildSample
+   produced, in the order it produced them, none skipped, repeated or
+   reordered (built is the model's log of every sample buildSample made;
+   the 2^16-slot ring of prepared samples is the reason for the bound). *)
+Theorem c31_pops_in_build_order : forall is_head is_tail unmarshal c ops,
+  N.of_nat (List.length (built (fst (run is_head is_tail unmarshal c ops)))) < 65536 ->
+  exists pending,
+    rev (built (fst (run is_head is_tail unmarshal c ops)))
+    = snd (run is_head is_tail unmarshal c ops) ++ pending.
+Proof. exact pops_in_build_order. Qed.
+Print Assumptions c31_pops_in_build_order.
 
 (* Not proved (props planned_not_proved, exercised by the correspondence run
    and the direct oracle on every generated history):
